@@ -170,17 +170,17 @@ func (c *Ctx) Violate(v Violation) {
 
 type partial struct {
 	Evals, Transitions, Traces, RefDisagree int64
-	Exhaustive                                bool
-	Capped                                    []string
-	Bound                                     map[string]any
-	Outcomes                                  map[string]int64
-	Families                                  map[string]int64
-	Samples                                   []any
-	Notes                                     []string
-	StatesCapped                              bool
-	Viol                                      []*Violation
-	ViolCount                                 map[string]int64
-	WallS                                     float64
+	Exhaustive                              bool
+	Capped                                  []string
+	Bound                                   map[string]any
+	Outcomes                                map[string]int64
+	Families                                map[string]int64
+	Samples                                 []any
+	Notes                                   []string
+	StatesCapped                            bool
+	Viol                                    []*Violation
+	ViolCount                               map[string]int64
+	WallS                                   float64
 }
 
 func writeHashes(path string, m map[uint64]struct{}) error {
@@ -218,8 +218,8 @@ type Check struct {
 	Assume    []string
 	Run       func(c *Ctx)
 	Replay    func(raw json.RawMessage) (string, bool) // re-execute one witness; returns description, still-violates
-	Race      bool                                      // needs the -race binary
-	QuickS    int                                       // enumeration budget, seconds (quick)
+	Race      bool                                     // needs the -race binary
+	QuickS    int                                      // enumeration budget, seconds (quick)
 	ThoroughS int
 }
 
@@ -406,7 +406,13 @@ func parent(ck *Check, tier string, seed int64) {
 			defer wg.Done()
 			out := filepath.Join(tmp, fmt.Sprintf("shard%d.json", i))
 			cmd := exec.Command(self, ck.ID, "--tier", tier, "--shard", fmt.Sprintf("%d/%d", i, n), "--out", out)
-			cmd.Env = append(os.Environ(), "GOMAXPROCS=1", "GOGC=800", "GORACE=halt_on_error=1 exitcode=66")
+			cmd.Env = append(os.Environ(), "GOMAXPROCS=1", "GOGC=800")
+			if ck.Race {
+				// reports go to a file the worker reads back after every execution, so that
+				// each race is tied to the schedule that showed it and exploration goes on
+				rl := filepath.Join(tmp, fmt.Sprintf("race%d", i))
+				cmd.Env = append(cmd.Env, "GORACE=halt_on_error=0 exitcode=0 log_path="+rl, "VERIF_RACE_LOG="+rl)
+			}
 			logf := filepath.Join(tmp, fmt.Sprintf("shard%d.log", i))
 			lf, _ := os.Create(logf)
 			cmd.Stdout = lf
@@ -683,6 +689,66 @@ func raceViolation(log string) *Violation {
 	return &Violation{Rule: "data-race", Shape: shape, Detail: log, Replay: map[string]any{"family": "race", "schedule": sched}}
 }
 
+// RaceDelta returns what the race detector has reported since the last call
+// (empty without -race or when nothing new was reported). The detector writes
+// to $VERIF_RACE_LOG.<pid> (GORACE log_path), set up by the parent.
+func RaceDelta() string {
+	base := os.Getenv("VERIF_RACE_LOG")
+	if base == "" {
+		return ""
+	}
+	f, err := os.Open(fmt.Sprintf("%s.%d", base, os.Getpid()))
+	if err != nil {
+		return ""
+	}
+	defer f.Close()
+	st, err := f.Stat()
+	if err != nil || st.Size() <= raceOff {
+		return ""
+	}
+	b := make([]byte, st.Size()-raceOff)
+	n, _ := f.ReadAt(b, raceOff)
+	raceOff += int64(n)
+	return string(b[:n])
+}
+
+var raceOff int64
+
+// RaceShape names a race by the two dgrr/http2 functions whose accesses conflict.
+func RaceShape(report string) string {
+	var fns []string
+	lines := strings.Split(report, "\n")
+	for i, l := range lines {
+		t := strings.TrimSpace(l)
+		if strings.HasPrefix(t, "Write at") || strings.HasPrefix(t, "Read at") || strings.HasPrefix(t, "Previous write at") || strings.HasPrefix(t, "Previous read at") {
+			for j := i + 1; j < len(lines) && j < i+14; j++ {
+				f := strings.TrimSpace(lines[j])
+				if f == "" {
+					break
+				}
+				if strings.HasPrefix(f, "github.com/dgrr/http2") {
+					if k := strings.Index(f, "("); k > 0 && !strings.HasPrefix(f[k:], "(*") {
+						f = f[:k]
+					} else if k := strings.LastIndex(f, "("); k > 0 {
+						f = f[:k]
+					}
+					fns = append(fns, strings.TrimPrefix(f, "github.com/dgrr/http2."))
+					break
+				}
+			}
+		}
+	}
+	if len(fns) >= 2 {
+		fns = fns[:2]
+		sort.Strings(fns)
+		return fns[0] + " | " + fns[1]
+	}
+	if len(fns) == 1 {
+		return fns[0] + " | (outside dgrr/http2)"
+	}
+	return "unclassified"
+}
+
 func replayMain(args []string) {
 	if len(args) < 1 {
 		fmt.Fprintln(os.Stderr, "usage: check replay <file>")
@@ -692,6 +758,39 @@ func replayMain(args []string) {
 	if err != nil {
 		fmt.Fprintln(os.Stderr, err)
 		os.Exit(2)
+	}
+	if os.Getenv("VERIF_RACE_LOG") == "" && raceBuild {
+		// re-run with the detector reporting to a file the replay can read back
+		// The detector keeps four accesses per 8-byte word and evicts pseudo-randomly,
+		// so one execution of a racy schedule can stay silent: try a few times.
+		for attempt := 1; attempt <= 5; attempt++ {
+			dir, err := os.MkdirTemp(filepath.Join(os.Getenv("VERIF_ROOT"), ".build"), "replay-race")
+			if err != nil {
+				break
+			}
+			self, _ := os.Executable()
+			cmd := exec.Command(self, append([]string{"replay"}, args...)...)
+			rl := filepath.Join(dir, "race")
+			cmd.Env = append(os.Environ(), "GOMAXPROCS=1", "GOGC=800", "GORACE=halt_on_error=0 exitcode=0 log_path="+rl, "VERIF_RACE_LOG="+rl)
+			var buf strings.Builder
+			cmd.Stdout, cmd.Stderr = &buf, &buf
+			err = cmd.Run()
+			os.RemoveAll(dir)
+			if ee, ok := err.(*exec.ExitError); ok && ee.ExitCode() == 1 {
+				fmt.Print(buf.String())
+				os.Exit(1)
+			}
+			if err != nil {
+				fmt.Print(buf.String())
+				fmt.Fprintln(os.Stderr, err)
+				os.Exit(2)
+			}
+			if attempt == 5 {
+				fmt.Print(buf.String())
+				fmt.Println("replay: 5 executions of the schedule, none reported")
+			}
+		}
+		os.Exit(0)
 	}
 	var r struct {
 		Property string          `json:"property"`
